@@ -609,7 +609,7 @@ class Consumption:
             return okany
         return False
 
-    def _param_positive(self, f: Func, pname) -> bool:
+    def _param_positive(self, f: Func, pname, depth=3) -> bool:
         sites = 0
         for g in self.prog.funcs.values():
             for cs in g.calls:
@@ -620,6 +620,10 @@ class Consumption:
                     if a is None:
                         d = f.default_of(pname)
                         if d is None or not self.is_positive(f, d, 0):
+                            return False
+                    elif isinstance(a, ast.Name) and a.id in g.params and depth > 0 and g is not f and not any(isinstance(x, ast.Name) and x.id == a.id and isinstance(x.ctx, ast.Store) for x in g.own_nodes()):
+                        # handed on unchanged from the caller's own parameter: positive if that one is at all its sites
+                        if not self._param_positive(g, a.id, depth - 1):
                             return False
                     elif not (isinstance(a, ast.Constant) and isinstance(a.value, (int, float)) and not isinstance(a.value, bool) and a.value > 0):
                         return False
